@@ -211,6 +211,10 @@ impl PoolInner {
         }
         #[cfg(folo_verif)]
         crate::__verif::point("shutdown/joined");
+
+        // No worker is left to run the tasks that are still queued. We drop them so that
+        // their join handles report the abandonment instead of waiting forever.
+        self.registry.abandon_queued_tasks_all();
     }
 }
 
